@@ -62,7 +62,7 @@ def gen_plan(seed: int, run: int, tier: str) -> dict:
         trials = [{"dur": rng.choice([0.3, 1.0, 2.5, 4.0, 7.0]) * hb, "attr": "w%d-%d" % (i, k), "x": round(rng.random(), 6), "end": rng.choice(["ok", "ok", "ok", "raise"])} for k in range(rng.randint(1, 3))]
         # wall-clock skew of the worker's host against the database clock (heartbeats and the
         # staleness test use the database clock, so this must not matter)
-        workers["w%d" % i] = {"trials": trials, "plain_asks": 1 if rng.random() < 0.2 else 0, "start_delay": rng.choice([0.0, 0.0, 0.5, 2.0]) * hb, "skew": rng.choice([0.0, 0.0, 0.0, 3600.0, -3600.0, 90000.0])}
+        workers["w%d" % i] = {"trials": trials, "plain_asks": 1 if rng.random() < 0.3 else 0, "start_delay": rng.choice([0.0, 0.0, 0.5, 2.0]) * hb, "skew": rng.choice([0.0, 0.0, 0.0, 3600.0, -3600.0, 90000.0])}
     faults = []
     nf = rng.choice([0, 1, 1, 1, 1, 1, 2, 2])
     for v in rng.sample(sorted(workers), min(nf, nworkers - 1)):
@@ -98,6 +98,9 @@ def gen_plan(seed: int, run: int, tier: str) -> dict:
         # workers and sweepers may hold a storage object that went through pickle (spawned
         # process, joblib/dask worker): it must behave like the original
         "pickled_storages": rng.random() < 0.3,
+        # an earlier study with beating trials was deleted before this one was created (SQLite
+        # hands its trial ids out again): nothing of it may stick to the new trials
+        "prehistory": rng.choice([0, 0, 2, 3]),
         # trials put in the queue beforehand: whoever runs them (first, or as a retry after
         # its worker died between two suggest calls) must get the enqueued values
         "enqueued": [{"x": round(0.1 + 0.2 * i + 0.001 * rng.randint(0, 99), 6), "c": rng.choice(["a", "b"])} for i in range(rng.choice([0, 0, 1, 2]))],
@@ -273,6 +276,15 @@ def _run(plan: dict, sim: sched.Sim, ch: sched.Chooser, dep: deploy.Deployment) 
         return _CachedStorage(st) if kind == "cached" else st
 
     st0 = make_storage(boot)
+    if cfg.get("prehistory"):
+        from optuna.study import StudyDirection
+
+        rdb0 = getattr(st0, "_backend", st0)
+        old = st0.create_new_study([StudyDirection.MINIMIZE], "old")
+        for _ in range(int(cfg["prehistory"])):
+            type(rdb0).record_heartbeat(rdb0, st0.create_new_trial(old))
+        st0.delete_study(old)
+        sim.count("prehistory_deleted_study_with_heartbeats")
     study0 = optuna.create_study(storage=st0, study_name="hb", sampler=optuna.samplers.RandomSampler(seed=0))
     for fp in cfg.get("enqueued", []):
         study0.enqueue_trial(dict(fp))
